@@ -1169,6 +1169,18 @@ class C03(Prop):
                     body.insert(pos, ctl)
                     for els in ("none", B([T("E")])):
                         tpls.append(B([T("<"), "(each v %s %s %s)" % (arr, B(body + self.meta()), els), T(">")]))
+        # loops whose passes emit nothing: the @else body belongs to "no pass at all" (empty array, condition false at
+        # entry), never to "nothing was printed"
+        quiet = [B(["(continue)", T("never")]), B(["(continueif (bool 1))", T("never")]), B(["(if (bool 0) %s (elifs) none)" % B([T("never")])]),
+                 B(["(if (bin lt (var i) (int 0)) %s (elifs) none)" % B(["(print (var i))"])]), B(["(assign q (int 1))"]),
+                 B(["(continueif (bin lt (var i) (int 9)))", "(print (var i))"])]
+        for body in quiet:
+            for n in range(0, 4):
+                for els in (B([T("E")]), "none"):
+                    tpls.append(B([T("["), "(for (init i (int 0)) (bin lt (var i) (int %d)) (inc i) %s %s)" % (n, body, els), T("]")]))
+                    tpls.append(B([T("["), "(for (init i (int %d)) (bin gt (var i) (int 0)) (dec i) %s %s)" % (n, body, els), T("]")]))
+                    arr = "(arr %s)" % " ".join("(int %d)" % (j + 1) for j in range(n)) if n else "(arr)"
+                    tpls.append(B([T("["), "(each i %s %s %s)" % (arr, body, els), T("]")]))
         for _ in range({"quick": 2500, "thorough": 40000, "search": 8000}[tier]):
             k = rng.random()
             if k < 0.55:
@@ -1841,7 +1853,7 @@ class C14(Prop):
             elif k == 5:
                 files = [("tpl/%s.tw" % nm, "file", "{{ ) }}" if j < 2 else "fine") for j, nm in enumerate(rng.sample(self.KEYS, 4))]
                 ops = [op_new("tpl", ".tw")] * reps
-            elif k == 6 and i % 2 == 1:
+            elif k == 6 and (i // 8) % 2 == 1:
                 a = "<ul>@each(n in [7, 8, 9])<li>{{ n }}</li>@end</ul>@for(i = 0; i < 2; i++)[{{ i }}]@end|{{ %s }}" % self.obj_lit(rng, nk)
                 b = rng.choice(["@each(n in [1, 2, \"x\"])<b>{{ n }}</b>@end", "@for(i = 0; i < 3; i++)x{{ 1 / (1 - i) }}@end",
                                 "@each(n in [1, 2])[{{ n }}@each(m in [1, 2])({{ m }}{{ zz }})@end]@end"])
